@@ -1,5 +1,5 @@
-(* C04 — Multigraph multiplicities, edge count and total edge count always agree.  Statements only; proofs in Totals.v / MultiRefine.v. *)
-From BG Require Import Base DirectedModel DirectedProofs DirectedSpec UndirectedModel MultiModel MultiSpec Totals MultiRefine.
+(* C04 — Multigraph multiplicities, edge count and total edge count always agree.  Statements only; proofs in Totals.v / MultiRefine.v (directed), UTotals.v / UMultiRefine.v (undirected). *)
+From BG Require Import Base DirectedModel DirectedProofs DirectedSpec UndirectedModel MultiModel MultiSpec Totals MultiRefine UMultiRefine.
 Local Open Scope Z_scope.
 
 (* DirectedMultigraph.  After ANY valid history (addEdge, addReciprocalEdge, addMultiedge, addReciprocalMultiedge, removeEdge, removeMultiedge,
@@ -39,14 +39,20 @@ Proof.
 Qed.
 Print Assumptions C04_spec_arithmetic.
 
-(* PARTIAL: the same statement for UndirectedMultigraph is the full property's other half.  It is stated here and NOT proved; the
-   undirected multigraph model is tied to the implementation and to the spec oracle by the correspondence check only. *)
-Definition C04_undirected_full_statement : Prop := forall (n : nat) (ops : list mop),
+(* UndirectedMultigraph: the same statement, multiplicities indexed by the unordered pair (the fix expressions are the run of the model,
+   validity of the history and the run of the spec, written out so that the statement can be read without another file). *)
+Theorem C04_undirected_multigraph_consistent : forall (n : nat) (ops : list mop),
   (fix valid a ops := match ops with [] => true | o :: t => valid_mop a o && valid (mspec_step true a o) t end) (s_init n) ops = true ->
   exists m, (fix run m ops := match ops with [] => (m, Done) | o :: t => match um_step repaired true m o with (m1, Done) => run m1 t | r => r end end) (dm_init n) ops = (m, Done) /\
     let a := (fix srun a ops := match ops with [] => a | o :: t => srun (mspec_step true a o) t end) (s_init n) ops in
     (forall i j, (i < sn a)%nat -> (j < sn a)%nat -> um_get_multiplicity m i j = Val (mval true a i j) /\ um_has_edge m i j = Val (Z.ltb 0 (mval true a i j))) /\
     enum (mg m) = Z.of_nat (length (se a)) /\ mtot m = ssum a.
+Proof. intros n ops Vd. exact (C04_undirected_run n ops Vd). Qed.
+Print Assumptions C04_undirected_multigraph_consistent.
+Theorem C04_undirected_invariant : forall (n : nat) (ops : list mop), um_valid_history (s_init n) ops = true ->
+  exists m, um_run (dm_init n) ops = (m, Done) /\ UTotals.UTInv m.
+Proof. exact UMultiRefine.C04_undirected_invariant. Qed.
+Print Assumptions C04_undirected_invariant.
 
 (* the pinned commit: setEdgeMultiplicity(i,j,0) of the undirected class removed one copy only; stale multiplicities survived clearEdges *)
 Example C04_refuted_on_pinned :
@@ -56,3 +62,43 @@ Proof. vm_compute. auto. Qed.
 Example C04_valid_history_example :
   valid_mhistory (s_init 3) [MAddMulti 0 1 3 false; MAdd 0 1 false; MRemoveMulti 0 1 2; MSet 2 2 5; MAddRecipMulti 1 2 2 false; MRemoveVertex 1; MSet 2 2 0; MResize 4; MClear] = true.
 Proof. vm_compute. reflexivity. Qed.
+
+(* ---- derived observers (dm_outdeg / dm_indeg: sums of multiplicities over a row / column; mult, umcell: the stored multiplicity, doubled on the
+   diagonal iff asked), and ALL observers at once: the whole observation vector equals the one computed from the multiplicity-function spec ---- *)
+From Coq Require Import List Arith ZArith.
+From BG Require Import Base DirectedModel DirectedProofs DirectedSpec DirectedRefine DirectedObs UndirectedModel UndirectedProofs UndirectedSpec UndirectedRefine UndirectedObs MultiModel WeightedModel MultiSpec Totals MultiRefine WeightedRefine UTotals UMultiRefine UWeightedRefine Instances UndirectedUsers MultiUsers WeightedUsers ObserveSpec ObserveSpecLabelled.
+Import ListNotations.
+Local Close Scope Z_scope.
+Theorem C04_directed_all_observers :
+  forall (n : nat) (ops : list mop),
+        valid_mhistory (s_init n) ops = true ->
+        exists m : mgraph, dm_run (dm_init n) ops = (m, Done) /\ dm_observe repaired m = sobserve_m false (mspec_run (s_init n) ops).
+Proof. exact ObserveSpec.dm_observe_history. Qed.
+Print Assumptions C04_directed_all_observers.
+Theorem C04_undirected_all_observers :
+  forall (n : nat) (ops : list mop),
+        um_valid_history (s_init n) ops = true ->
+        exists m : mgraph, um_run (dm_init n) ops = (m, Done) /\ um_observe repaired m = sobserve_m true (umspec_run (s_init n) ops).
+Proof. exact ObserveSpec.um_observe_history. Qed.
+Print Assumptions C04_undirected_all_observers.
+Theorem C04_out_degree :
+  forall (m : mgraph) (v : nat), TInv m -> v < size (mg m) -> dm_out_degree m v = Val (dm_outdeg m v).
+Proof. exact MultiUsers.dm_out_degree_val. Qed.
+Print Assumptions C04_out_degree.
+Theorem C04_in_degree :
+  forall (m : mgraph) (v : nat), TInv m -> v < size (mg m) -> dm_in_degree repaired m v = Val (dm_indeg m v).
+Proof. exact MultiUsers.dm_in_degree_val. Qed.
+Print Assumptions C04_in_degree.
+Theorem C04_adjacency_matrix :
+  forall m : mgraph, TInv m -> dm_adjacency_matrix m = Val (map (fun i : nat => map (fun j : nat => mult m i j) (seq 0 (size (mg m)))) (seq 0 (size (mg m)))).
+Proof. exact MultiUsers.dm_adjacency_matrix_val. Qed.
+Print Assumptions C04_adjacency_matrix.
+Theorem C04_undirected_degree :
+  forall (m : mgraph) (v : nat) (twice : bool), UTInv m -> v < size (mg m) -> um_degree m v twice = Val (um_deg m twice v).
+Proof. exact MultiUsers.um_degree_val. Qed.
+Print Assumptions C04_undirected_degree.
+Theorem C04_undirected_adjacency_matrix :
+  forall (m : mgraph) (twice : bool),
+        UTInv m -> um_adjacency_matrix m twice = Val (map (fun i : nat => map (fun j : nat => umcell m twice i j) (seq 0 (size (mg m)))) (seq 0 (size (mg m)))).
+Proof. exact MultiUsers.um_adjacency_matrix_val. Qed.
+Print Assumptions C04_undirected_adjacency_matrix.
